@@ -138,7 +138,12 @@ def evaluate(ctx, res, spec, start, ext_ops, cfg, pre_start_ops=()):
           if rec['spy_rtc'] != exp:
             return bad('C19', 'C19/step-spy-differs', 'spy_rtc() after step %d (%s): %r expected %r' % (i, want, rec['spy_rtc'], exp), failing_step=i)
           if exp_full is not None:
-            exp_full += exp
+            if any(r[0] == 'act' and r[1] == 'clear_spy' for r in rec['log']):
+              # a handler emptied the full spy in the middle of this step: the step's own lines are added at its end
+              ctx.count('clear_spy_calls_inside_a_step')
+              exp_full = list(exp)
+            else:
+              exp_full += exp
           if exp_live_spy is not None:
             exp_live_spy += exp
         else:
